@@ -133,6 +133,7 @@ claim("C04", "Compartments",
       "DESIGN.md §5 C04")
 
 ENGINES = [
+    {"name": "ProjectItems", "path": "spec/ProjectItems.tla", "serves_properties": [], "kind_free_text": "growth beyond the listed properties: name resolution of project item registries (short names, ambiguity, shadowing) + ProjectItemsEmit; harness/x03.py (./check X03)"},
     {"name": "OptHistory", "path": "spec/OptHistory.tla", "serves_properties": [], "kind_free_text": "growth beyond the listed properties: optimisation history parsed from scipy's verbose output (line-kind state machine) + OptHistoryEmit; harness/x02.py (./check X02)"},
     {"name": "Pipeline", "path": "spec/Pipeline.tla", "serves_properties": [], "kind_free_text": "growth beyond the listed properties: preprocessing pipeline (persistent builder, composition, mean-zero) + PipelineEmit; harness/x01.py (./check X01)"},
     {"name": "Compartments", "path": "spec/Compartments.tla", "serves_properties": ["C04"], "kind_free_text": "TLA+ Compartments.tla (exact compartmental algebra, emission built in); harness/c04.py"},
